@@ -350,6 +350,53 @@ func (fr *faultRun) install() {
 		}
 		return d.E.Bcast || f.Recip < 0 || d.To == f.Recip
 	}
+	if strings.HasPrefix(f.Kind, "late") {
+		// the honest copy is delivered as it is; an altered SECOND version of the same message (+1 on the field)
+		// follows after f.Arity further deliveries (a deviator that re-sends something else later)
+		type lateItem struct {
+			d    *sim.Delivery
+			left int
+		}
+		var waiting []*lateItem
+		shadow := *fr
+		shadow.c.F.Kind = "+1"
+		shadow.cache = map[*sim.Emit][]byte{}
+		net.OnCreate = func(d *sim.Delivery) bool {
+			if d.Tag == "" && match(d) {
+				waiting = append(waiting, &lateItem{d, f.Arity})
+			}
+			return true
+		}
+		prev := net.AfterStep
+		net.AfterStep = func(s sim.Step) {
+			if s.D != nil && s.D.Tag == "tampered" && s.Kind == sim.StepDeliver {
+				fr.consumed++
+			}
+			if s.Kind == sim.StepDeliver && (s.D == nil || s.D.Tag != "tampered") {
+				var still []*lateItem
+				for _, it := range waiting {
+					if it.d.Count == 0 { // the honest copy has not been delivered yet
+						still = append(still, it)
+						continue
+					}
+					it.left--
+					if it.left > 0 {
+						still = append(still, it)
+						continue
+					}
+					if b, ok := shadow.alter(it.d); ok && !shadow.na {
+						net.Inject(&sim.Delivery{E: it.d.E, To: it.d.To, From: it.d.From, Bytes: b, Bcast: it.d.Bcast, Tag: "tampered"})
+						fr.applied++
+					}
+				}
+				waiting = still
+			}
+			if prev != nil {
+				prev(s)
+			}
+		}
+		return
+	}
 	net.OnCreate = func(d *sim.Delivery) bool {
 		if !match(d) {
 			return true
@@ -701,6 +748,19 @@ func enumCells(run protoRun, kinds []string, listKinds []string, salt int, maxPe
 				for _, k := range []string{"bits-2047", "bits-1024"} {
 					cells = append(cells, faultCase{Run: run, F: faultSpec{Deviator: e.From, MsgType: e.Type, Field: ref, Kind: k, Recip: recip, Salt: salt}})
 				}
+			}
+		}
+		if len(kinds) > 0 && kinds[0] == "+1" && len(refs) > 0 { // a second, different version of the message, later
+			first := refs[0]
+			for _, r := range refs {
+				if coveredFieldKind(e.Type, r.Name, "+1") {
+					first = r
+					break
+				}
+			}
+			nn := len(x.net.Nodes)
+			for _, lag := range []int{1, nn * (nn - 1), 2 * nn * (nn - 1)} {
+				cells = append(cells, faultCase{Run: run, F: faultSpec{Deviator: e.From, MsgType: e.Type, Field: first, Kind: "late+1", Recip: recip, Salt: salt, Arity: lag}})
 			}
 		}
 		for name := range lens {
